@@ -69,5 +69,22 @@ PROPS['C16'] = {
     'assumptions': [],
 }
 
-HOOK_COMMITS = []
+_KANI_TB = ['Kani 0.68 + CBMC 6.11 (SAT back end)', 'kani/src/sm83.rs: SM83 reference semantics (spec)', 'recording-bus stub for memory_read_byte/memory_write_byte',
+            'the repository files are compiled unmodified via #[path] includes (no extraction)']
+PROPS['C05'] = {
+    'level': 'proof', 'kani': ['isa'], 'trusted_base': _KANI_TB, 'design_ref': 'DESIGN.md 5.5',
+    'technique': 'Kani/CBMC loop-free harness per concrete opcode over full-domain symbolic registers/flags/immediates/bus values: real decode + run_op == independent SM83 spec',
+    'level_text': 'For each defined encoding (thorough: all 500; quick: a stratified subset incl. every block terminator, every (HL) form and one register form per ALU/CB row) CBMC proves, for every A/F/BC/DE/HL/SP/PC, immediate and bus value, that decoder::decode + interpreter::run_op leave AF, BC, DE, HL equal to the SM83 reference (flags incl. DAA, rotates through carry, 16-bit adds, ADD SP,e8, POP AF masking), with every pair < 65536 and F low nibble 0. Loop-free over full domains: a complete proof per opcode, not a bounded one.',
+    'level_note': 'Trusts the SM83 spec library, CBMC, and the recording bus as a faithful abstraction of the bus contract (C10). Quick tier covers a subset of encodings; the thorough tier covers all.',
+    'assumptions': [],
+}
+PROPS['C06'] = {
+    'level': 'proof', 'kani': ['isa'], 'trusted_base': _KANI_TB, 'design_ref': 'DESIGN.md 5.6',
+    'technique': 'same Kani/CBMC per-opcode harnesses, control group: PC/SP/length/cycles (taken and not taken)/block end/status/ordered bus trace vs the SM83 spec; undefined opcodes reach only the panic',
+    'level_text': 'Same harnesses as C05, control checks: PC after = PC + length or the defined target mod 2^16, SP and the stack bytes (high byte first) for PUSH/POP/CALL/RET/RST, machine cycles for both branch outcomes, Op::is_block_end against the table, status code, number/order/content of bus accesses; each of the 11 undefined encodings decodes to Op::Invalid and run_op can only panic on it.',
+    'level_note': 'Call-site precondition pc <= 0xFFFC (instruction inside one fetch slice). interpreter::run_next_op / run_code_block (fetch loop) are covered by unit core_step.',
+    'assumptions': [],
+}
+
+HOOK_COMMITS = ['e7167ea']
 NOT_APPLICABLE = {}
